@@ -113,10 +113,12 @@ def run(ctx: Context) -> None:
     ctx.rule('R15.3', "serialisers that round coordinates by default are given an explicit precision", floor=2)
     ctx.rule('R15.4', "WKT/WKB writers serialise the multipolygon of all cells and write it to the caller's path; GeoJSON is dumped from to_geojson(dataset)", floor=4)
     ctx.rule('R15.5', "the export command opens the dataset as the library does and dispatches to the library writer of the requested or guessed format (shared with C20 R20.4/R20.5)", floor=4)
-    ctx.rule('R15.6', "the polygon exported at position n is cell n's own polygon: polygon order equals index order, holes keep their slot, stored bounds are only accepted in the grid's dimension order (facts shared with C02 R02.2 / R02.3 / R02.5 / R02.6)", floor=30)
+    ctx.rule('R15.6', "the polygon exported at position n is cell n's own polygon: polygon order equals index order, holes keep their slot, stored bounds are only accepted in the grid's dimension order (facts shared with C02 R02.2 / R02.3 / R02.5; the bounds guards of C06 arrive through the geometry foundation R15.7)", floor=20)
     from . import c02 as _c02
     from .common import share_obligations as _share
     _share(ctx, _c02, {'R02.2', 'R02.3', 'R02.5', 'R02.6'}, 'R15.6')
+    from .common import adopt_foundations as _adopt
+    _adopt(ctx, 'R15.7', ['geometry', 'order'], floor=60)
     ctx.assume("geojson, pyshp and shapely serialisers keep feature order; files are not read back (no execution)")
 
     tg = ctx.func(f"{GEO}.to_geojson")
